@@ -39,7 +39,9 @@ VARIABLES tid, done
 One1 == {"Identity", "PauliX", "PauliY", "PauliZ", "Hadamard", "S", "SX", "T"}
 Two2 == {"CNOT", "CY", "CZ", "SWAP", "ISWAP"}
 Adj(S) == {"Adjoint(" \o s \o ")" : s \in S}
-Arity(g) == IF g \in One1 \cup Adj(One1) THEN 1 ELSE IF g \in Two2 \cup Adj(Two2) THEN 2 ELSE IF g = "GlobalPhase" THEN 0 ELSE -1
+OneAll == One1 \cup Adj(One1)          \* constants: evaluated once
+TwoAll == Two2 \cup Adj(Two2)
+Arity(g) == IF g \in OneAll THEN 1 ELSE IF g \in TwoAll THEN 2 ELSE IF g = "GlobalPhase" THEN 0 ELSE -1
 ElemsOf(s) == {s[i] : i \in 1..Len(s)}
 Distinct(s) == Cardinality(ElemsOf(s)) = Len(s)
 NGP(t) == Cardinality({i \in 1..Len(t.out) : t.out[i].g = "GlobalPhase"})
